@@ -63,6 +63,7 @@ type Exec struct {
 	curPos   token.Pos
 	curProps []string
 	selfFn   *Term // functype verification: the id of the function itself
+	closureBindings []Val // bindings of the function literal whose contract is being applied at a call site
 	ghostInit bool
 	measureAtEntry []*Term
 	coverReturns int
